@@ -215,6 +215,10 @@ class EventManager(Runnable):
             if self.cursor is None:
                 self.cursor = self.provider.current_cursor
                 if self.cursor is not None:
+                    if self.need_walk and self._walk_tag is not None:
+                        # no stored cursor: the walk makes up for everything before the position adopted here, so it
+                        # must survive a restart - forget that we ever walked before that position reaches storage
+                        self.state.storage_delete_tag(self._walk_tag)
                     self.state.storage_update_data(self._cursor_tag, self.cursor)
             else:
                 log.debug("retrieved existing cursor %s for %s", self.cursor, self.provider.name)
